@@ -111,6 +111,23 @@ int main ()
         o << " " << (contract ((int) scale, Stokes<double>(), 1e-12) ? 1 : 0) << " " << (contract ((long) scale, Stokes<double>(), 1e-12) ? 1 : 0)
           << " " << (contract ((unsigned) scale, Stokes<double>(), 1e-12) ? 1 : 0) << " " << (contract ((float) scale, Stokes<double>(), 1e-6) ? 1 : 0)
           << " " << (contract ((double) scale, Stokes<float>(), 1e-5) ? 1 : 0) << " " << (contract ((float) scale, Stokes<float>(), 1e-5) ? 1 : 0); }
+      // oracle: random Stokes vectors filled through the generic container fillers (random_vector / random_matrix over
+      // std::vector, Vector and nested containers of Stokes): every element must be the vector that random_value(Stokes) makes
+      // from the same four random() values (bit for bit), so it has the contract of a random Stokes vector.  Output: number of
+      // elements that differ, over all containers
+      else if (op == "o.c18.containers") { double scale = rd (t[1]); std::vector<long> rs; for (size_t i=2;i<t.size();i++) rs.push_back (std::stol (t[i]));
+        auto feed = [&]() { g_random.clear(); for (long r : rs) g_random.push_back (r); };
+        auto refs = [&](auto proto, unsigned n) { std::vector<decltype(proto)> out (n); feed (); for (unsigned i=0;i<n;i++) random_value (out[i], scale); return out; };
+        long bad = 0;
+        auto same = [&](const auto& a, const auto& b) { for (unsigned k=0;k<4;k++) { auto x = a[k]; auto y = b[k]; if (memcmp (&x, &y, sizeof (x)) != 0) return false; } return true; };
+        { auto want = refs (Stokes<double>(), 3); std::vector< Stokes<double> > c (3); feed (); random_vector (c, scale); for (unsigned i=0;i<3;i++) if (!same (c[i], want[i])) bad++; }
+        { auto want = refs (Stokes<float>(), 3); std::vector< Stokes<float> > c (3); feed (); random_vector (c, scale); for (unsigned i=0;i<3;i++) if (!same (c[i], want[i])) bad++; }
+        { auto want = refs (Stokes<double>(), 2); Vector< 2, Stokes<double> > c; feed (); random_vector (c, scale); for (unsigned i=0;i<2;i++) if (!same (c[i], want[i])) bad++; }
+        { auto want = refs (Stokes<double>(), 3); std::vector< Stokes<double> > c (3); feed (); random_matrix (c, scale); for (unsigned i=0;i<3;i++) if (!same (c[i], want[i])) bad++; }
+        { auto want = refs (Stokes<double>(), 4); std::vector< std::vector< Stokes<double> > > c (2, std::vector< Stokes<double> > (2)); feed (); random_matrix (c, scale);
+          for (unsigned i=0;i<2;i++) for (unsigned j=0;j<2;j++) if (!same (c[i][j], want[2*i+j])) bad++; }
+        { auto want = refs (Stokes<double>(), 1); Stokes<double> c; feed (); random_vector (c, scale); if (!same (c, want[0])) bad++; }
+        g_random.clear(); o << " " << bad; }
       else { std::cout << "err unknown-op\n"; continue; }
       if (g_exhausted) throw Exhausted (g_exhausted);
       std::cout << "ok" << o.str() << "\n";
